@@ -557,7 +557,10 @@ class Changelog(object):
                     current_block._raw_version = top_match.group(2)
                     current_block.distributions = top_match.group(3).lstrip()
 
-                    pairs = line.split(";", 1)[1]
+                    # the heading regex ends on the ';' that separates the
+                    # distributions from the key=value pairs (an earlier ';'
+                    # can only be part of the version)
+                    pairs = line[top_match.end():]
                     all_keys = {}      # type: Dict[str, str]
                     other_pairs = {}   # type: Dict[str, str]
                     for pair in pairs.split(','):
